@@ -189,6 +189,14 @@ Theorem C11_library_graph_reads_pure : forall (k : nat) (vf : vfn) (reads : list
   (k < 6)%nat -> gobservations (ginstance k) vf reads = map (gspec (ginstance k) vf) reads.
 Proof. exact instance_reads_pure. Qed.
 
+(* curvature_reg_matrix is, in those graphs, a node that builds a new array and deletes the curvature_matrix entry; the code adds INTO
+   the cached curvature matrix and deletes the entry (PART B): the two machines report the same values on every sequence of
+   curvature_matrix / curvature_reg_matrix reads, with or without preloads *)
+Theorem C11_partB_agrees_with_graph_node : forall (add : adder) (F H D U : arr) (pre : ipre) (qs : list iq),
+  forallb is_matrix_read qs = true ->
+  irun add ifaithful pre F H D U (ist0 F D) qs = gobservations g_crm (vf_crm add F H) (map node_of_iq qs).
+Proof. exact partB_agrees_with_graph_node. Qed.
+
 (* the two defect classes leave the discipline and are order dependent: `voronoi_pixel_areas` as a cached_property (its consumers
    edit the array they receive), and `noise_map.native` returning the stored object (apply_noise_scaling edits it) *)
 Theorem C11_defect_graphs_not_disciplined :
@@ -257,6 +265,7 @@ Print Assumptions C11_graph_order_independence.
 Print Assumptions C11_graph_effect_summaries_are_sound.
 Print Assumptions C11_library_graphs_disciplined.
 Print Assumptions C11_library_graph_reads_pure.
+Print Assumptions C11_partB_agrees_with_graph_node.
 Print Assumptions C11_defect_graphs_not_disciplined.
 Print Assumptions C11_mesh_areas_cached_refuted.
 Print Assumptions C11_chain_native_alias_refuted.
